@@ -33,8 +33,8 @@ func hello(mode string) string {
 }
 
 func modeConfig(mode string) (h.Config, *h.Backend) {
-	cfg := h.Config{LMTP: strings.HasPrefix(mode, "lmtp")}
-	be := &h.Backend{LMTPSess: mode == "lmtp-rcpt"}
+	cfg := h.Config{LMTP: strings.HasPrefix(mode, "lmtp"), AllowInsecureAuth: true}
+	be := &h.Backend{LMTPSess: mode == "lmtp-rcpt", Auth: true, Mechs: saslMechs, NewSASL: newSASL}
 	return cfg, be
 }
 
